@@ -3245,6 +3245,16 @@ INSTANCE_OBLIGATIONS = {
     'text_helper_args_empty_parentheses_are_no_argument': 'helper_args_empty_parens_no_argument',
     'text_helper_args_joined_by_comma_blank': 'helper_args_joined_by_comma_blank',
     'text_helper_args_filter_is_refuted': 'filter_blank_breaks',
+    # round 5: what EntityDef.__deepcopy__ shares with the cached definition (SM/FgdCopyShare.v), per attribute
+    'state_copy_of_keyvalues_shares_no_object': 'copy_field_isolates "keyvalues"%string',
+    'state_copy_of_inputs_shares_no_object': 'copy_field_isolates "inputs"%string',
+    'state_copy_of_outputs_shares_no_object': 'copy_field_isolates "outputs"%string',
+    'state_copy_of_kv_order_shares_no_object': 'copy_field_isolates "kv_order"%string',
+    'state_copy_of_bases_shares_no_object': 'copy_field_isolates "bases"%string',
+    'state_copy_of_helpers_shares_no_object': 'copy_field_isolates "helpers"%string',
+    'state_copy_of_resources_shares_no_object': 'copy_field_isolates "resources"%string',
+    'state_copy_plan_isolates_every_attribute': 'entity_copy_isolates',
+    'state_copy_shared_io_objects_and_shared_list_are_refuted': 'shared_io_objects_break',
     'text_kv_type_program_is_the_model': 'kv_type_prog_ok',
     'text_io_type_program_is_the_model': 'io_type_prog_ok',
     'text_kv_unknown_type_kept_verbatim': 'kv_unknown_type_kept_verbatim',
@@ -3872,7 +3882,7 @@ def run(ck: Ck) -> None:
                ('_write_longstring', 'longstring:'), ('_fgd_escape', 'longstring:'), ('ESCAPE', 'longstring:'),
                ('KVDef.export', 'generated-fgd'), ('IODef.export', 'generated-fgd'), ('EntityDef.export', 'generated-fgd'),
                ('KVDef._parse', 'type-text-'), ('IODef._parse', 'type-text-'), ('VALUE_TYPE_LOOKUP', 'type-text-'), ('ValueTypes', 'type-text-'), ('VALUE_TO_IO_DECAY', 'generated-fgd'), ('VALUE_TO_IO_DECAY', 'type-text-'),
-               ('KVDef._parse', 'generated-fgd'), ('IODef._parse', 'generated-fgd'), ('FGD.parse_file', 'generated-fgd'), ('EntityDef.parse', 'helper-args-'), ('EntityDef.parse', 'generated-fgd'), ('EntityDef.export', 'helper-args-'),
+               ('KVDef._parse', 'generated-fgd'), ('IODef._parse', 'generated-fgd'), ('FGD.parse_file', 'generated-fgd'), ('EntityDef.parse', 'helper-args-'), ('EntityDef.parse', 'generated-fgd'), ('EntityDef.export', 'helper-args-'), ('__deepcopy__', 'lazy-answer-not-isolated'), ('.copy', 'lazy-answer-not-isolated'),
                ('FGD.parse_file', 'bundled-db'), ('EntityTypes', 'generated-fgd'))
     for tie in ck.tie_broken:
         if tie.startswith('translator '):
@@ -3881,6 +3891,8 @@ def run(ck: Ck) -> None:
     if any(k.startswith('lazy-') for k in keys):
         ck.explain('correspondence:lazy_db')
         ck.explain('instance:lazy_')
+    if any(k.startswith('lazy-answer-not-isolated') for k in keys):
+        ck.explain('instance:state_copy_')
     if any(k.startswith('lazy-multi-db') for k in keys):
         ck.explain('correspondence:multi_db')
         ck.explain('instance:multi_db_')
